@@ -415,3 +415,10 @@ Example fobj_md5_plain_nonvacuous :
   exists s' ch, fobj_md5 [83; 72; 65; 49] 2 [9; 8; 7; 6; 5] [1] = DriveOk s' ch /\
                 ch = [[9]; [8; 7]; [6; 5]] /\ hs_hasher s' = [9; 8; 7; 6; 5] /\ hs_total_read s' = 5.
 Proof. eexists _, _. vm_compute. repeat split; reflexivity. Qed.
+
+(* selection is by the WHOLE lower-cased name: "MD5-SHA1" is hashed by md5-sha1 (not by the
+   part before the dash), and only the exact legacy name maps to md5 *)
+Example names_md5_sha1 :
+  let nm := [77; 68; 53; 45; 83; 72; 65; 49] in
+  hasher_alg nm = [109; 100; 53; 45; 115; 104; 97; 49] /\ hasher_alg nm <> s_md5 /\ picks_dos2unix nm = false.
+Proof. vm_compute. repeat split; try reflexivity. discriminate. Qed.
